@@ -137,6 +137,9 @@ type shardResult struct {
 func run(prop string, plan Plan, tier string) int {
 	start := time.Now()
 	runDir := filepath.Join(root, "run", prop, tier)
+	if alt := os.Getenv("VERIF_REPO"); alt != "" && alt != "/repo" {
+		runDir = filepath.Join(root, "run", prop, tier+"-"+fmt.Sprintf("%x", sha256.Sum256([]byte(alt)))[:10])
+	}
 	_ = os.RemoveAll(runDir)
 	partDir := filepath.Join(runDir, "parts")
 	repDir := filepath.Join(runDir, "replays")
